@@ -13,6 +13,7 @@ import Ptk.Props.C19Cascade
 import Ptk.Props.C19Color
 import Ptk.Props.C19Sgr
 import Ptk.Props.C19Depth
+import Ptk.Props.C19Style
 namespace Ptk.C19
 open Ptk.Py
 
@@ -43,6 +44,10 @@ theorem gen_defaultAttrs :
 theorem gen_emptyAttrs :
     G.emptyAttrs = { color := none, bgcolor := none, bold := none, underline := none, strike := none,
                      italic := none, blink := none, reverse := none, hidden := none } := by decide +kernel
+
+/-- ANSI names / alias keys / named-colour keys are words the style parser reads back as such;
+    `_EMPTY_ATTRS` is all-None and `DEFAULT_ATTRS` is ''/False everywhere -/
+theorem gen_styleOk : StyleOk G := styleOk_of_bool G (by decide +kernel)
 
 /-! ## 1. the cascade -/
 
@@ -216,6 +221,27 @@ theorem escape_decodes_24bit (a : Attrs) (hv : ValidAttrs G a) :
   rw [ansi_of_renderEscape G _ (sgrCodes_d24_bound G gen_encDecOk gen_codesBounded gsp gen_spOk a hv) 'x'
     (by decide), sgr_roundtrip_24bit_gen a hv]
 
+/-- decoding an escape sequence the way the library does it: `ANSI(esc + 'x')`, take the style of
+    its single fragment, resolve that style string (against an empty sheet) -/
+def decodeEscape (T : Tables) (sp : Char → Bool) (esc : Text) : Option Attrs :=
+  match ansiFragments T (esc ++ ['x']) with
+  | [(style, _)] => getAttrs T sp [] style T.defaultAttrs
+  | _ => none
+
+/-- **C19-j' (24-bit round trip, end to end).**  For valid attributes, the escape sequence emitted
+    at 24-bit depth decodes back — through the ANSI parser and the style parser — to the same
+    attributes in canonical form (`None`→''/False, 'default'→'', hex digits lower-cased). -/
+theorem roundtrip_24bit (a : Attrs) (hv : ValidAttrs G a) :
+    decodeEscape G gsp (escapeCode G gsp .d24 a) = some (canon G a) := by
+  unfold decodeEscape
+  rw [escape_decodes_24bit a hv]
+  exact decode_styleString G gen_encDecOk gen_styleOk gsp gen_spOk a hv
+
+/-- attributes that are already canonical come back unchanged -/
+theorem roundtrip_24bit_canonical (a : Attrs) (hv : ValidAttrs G a) (hc : canon G a = a) :
+    decodeEscape G gsp (escapeCode G gsp .d24 a) = some a := by
+  rw [roundtrip_24bit a hv, hc]
+
 def sampleAttrs : Attrs :=
   { color := some "FF8000".toList, bgcolor := some "ansiblue".toList, bold := some true, underline := none,
     strike := some false, italic := some true, blink := none, reverse := some false, hidden := some false }
@@ -224,6 +250,12 @@ example : ValidAttrs G sampleAttrs := by decide +kernel
 example : escapeCode G gsp .d24 sampleAttrs = (Char.ofNat 27 :: "[0;38;2;255;128;0;44;1;3m".toList) := by
   decide +kernel
 example : styleString (sgrOf G sampleAttrs) = "#ff8000 bg:ansiblue bold italic".toList := by decide +kernel
+example : canon G sampleAttrs =
+    { color := some "ff8000".toList, bgcolor := some "ansiblue".toList, bold := some true,
+      underline := some false, strike := some false, italic := some true, blink := some false,
+      reverse := some false, hidden := some false } := by decide +kernel
+example : canon G (canon G sampleAttrs) = canon G sampleAttrs ∧ ValidAttrs G (canon G sampleAttrs) := by
+  decide +kernel
 
 /-- **C19-k (8-bit depth).**  An RGB colour is emitted as `38;5;m` / `48;5;m` where `m` is a nearest
     palette index in the sense of C19-e. -/
